@@ -99,6 +99,12 @@ impl OutstationTask {
 
     /// run the outstation task asynchronously until a `SessionError` occurs
     pub(crate) async fn run(&mut self, io: &mut PhysLayer) -> RunError {
+        // The previous call may have been cancelled by dropping its future (the TCP server
+        // does this when a new connection replaces the one in use), in which case the
+        // clean-up below never ran: nothing of the old connection may leak into this one.
+        self.reader.reset();
+        self.writer.reset();
+
         let res = self
             .session
             .run(io, &mut self.reader, &mut self.writer, &mut self.database)
